@@ -1348,6 +1348,62 @@ def r12(ctx, rep):
     rep.borrowed(C08.r6, ctx, "C02.R12", "a negative number literal is emitted as unary minus over its magnitude, never as an atom")
 
 
+def r13(ctx, rep):
+    """`x >= lo && x <= hi` becomes `x BETWEEN lo AND hi`. Which comparison gives the low end is decided by the operator NAMES: the
+    argument taken as `low` comes from the comparison that is tested to be `std.gte`, `high` from the one tested to be `std.lte`, and both
+    tests are plain conjuncts of the guard (a disjunction that also admits the pair in the other order swaps the ends: BETWEEN 5 AND 1)."""
+    rep.rule("C02.R13", "BETWEEN recognition: low is the right operand of the comparison tested `== \"std.gte\"`, high that of the one tested `== \"std.lte\"`", floor=3)
+    syn = ctx.syn
+    f = syn.fn("gen_expr::try_into_between", crate="prqlc")
+    loc = dict(file=f["file"], fn=f["path"])
+    bt = [n for n in walk(f["body"]) if n.get("k") == "struct" and last_seg(n["p"]) == "Between"]
+    if len(bt) != 1:
+        raise AnchorMissing("try_into_between: the `Between { expr, low, high }` it builds")
+    d = dict(bt[0]["f"])
+    # the variable each end is translated from: first argument of translate_operand(..)
+
+    def operand_var(e):
+        for c in walk(e):
+            if c.get("k") == "call" and last_seg(show(c["f"])) == "translate_operand" and c["a"]:
+                return show(c["a"][0]).replace(".clone()", "")
+        return None
+    lo, hi, subj = operand_var(d.get("low")), operand_var(d.get("high")), operand_var(d.get("expr"))
+    # `let [x_l, x_r] = <args var>.try_into()..`: element -> (args variable, position)
+    elem = {}
+    for n in walk(f["body"]):
+        if n.get("k") == "local" and n["pat"].get("k") in ("p_slice", "p_tuple", "p_array") and n.get("init") is not None:
+            names = [x.get("n") for x in (n["pat"].get("e") or [])]
+            src_ = re.match(r"(\w+)\.", show(n["init"], maxdepth=6))
+            if src_ and len(names) == 2 and all(names):
+                elem[names[0]] = (src_.group(1), 0)
+                elem[names[1]] = (src_.group(1), 1)
+    # pattern `Operator { name: N, args: A }`: args variable -> name variable
+    name_of = {}
+    for n in walk(f["body"]):
+        if n.get("k") == "p_struct" and last_seg(n["p"]) == "Operator":
+            dd = {a: b for a, b in n["f"]}
+            if "name" in dd and "args" in dd and dd["name"].get("k") == "p_ident" and dd["args"].get("k") == "p_ident":
+                name_of[dd["args"]["n"]] = dd["name"]["n"]
+    ok_roles = lo in elem and hi in elem and subj in elem and elem[lo][1] == 1 and elem[hi][1] == 1 and elem[subj][1] == 0 and elem[lo][0] != elem[hi][0]
+    rep.check(ok_roles, "between:roles", f"`low` and `high` are the right operands of the two comparisons and `expr` a left operand (found expr={subj}, low={lo}, high={hi}; destructured {elem})",
+              line=bt[0]["l"], **loc)
+    if not ok_roles:
+        return
+    n_lo, n_hi = name_of.get(elem[lo][0]), name_of.get(elem[hi][0])
+    # the guard of the arm that binds those names
+    import guards
+    conj = []
+    for m in matches_of(f["body"]):
+        for a in m["arms"]:
+            if a.get("guard") is not None and any(x.get("k") == "p_ident" and x["n"] in (n_lo, n_hi) for x in walk(a["pat"])):
+                conj = [show(c_, maxdepth=6).strip("()") for c_ in guards.conjuncts(a["guard"])]
+    conj = [c_.replace('"', "'") for c_ in conj] + [" == ".join(reversed(c_.replace('"', "'").split(" == "))) for c_ in conj if c_.count(" == ") == 1]
+    want_lo, want_hi = f"{n_lo} == 'std.gte'", f"{n_hi} == 'std.lte'"
+    rep.check(want_lo in conj, "between:low-is-gte", f"the comparison whose right operand becomes `low` must be tested `{want_lo}` as a plain conjunct of the arm's guard (found {conj}): "
+              "otherwise `a <= 5 && a >= 1` is emitted `a BETWEEN 5 AND 1`, which no row satisfies", line=bt[0]["l"], **loc)
+    rep.check(want_hi in conj, "between:high-is-lte", f"the comparison whose right operand becomes `high` must be tested `{want_hi}` as a plain conjunct of the arm's guard (found {conj})", line=bt[0]["l"], **loc)
+
+
 def run(ctx, rep):
-    for r in (r1, r2, r3, r4, r5, r6, r7, r8, r9, r10, r11, r12):
+    for r in (r1, r2, r3, r4, r5, r6, r7, r8, r9, r10, r11, r12, r13):
         rep.guard(r, ctx)
